@@ -32,6 +32,7 @@ import (
 	"path/filepath"
 	"sort"
 	"strings"
+	"sync"
 	"testing"
 
 	"github.com/btcsuite/btcd/btcec/v2"
@@ -400,6 +401,9 @@ func c05Run(t *testing.T, c *c05Close, height uint32,
 	// second-level output -> the commitment output it stems from
 	secondLevelOuts := map[wire.OutPoint]wire.OutPoint{}
 	var violations []error
+	// mu guards the bookkeeping above: resolver goroutines publish /
+	// incubate concurrently right after they are started.
+	var mu sync.Mutex
 
 	// verify runs the interpreter on tx input 0 against the actual
 	// previous output.
@@ -422,7 +426,10 @@ func c05Run(t *testing.T, c *c05Close, height uint32,
 		if len(tx.TxIn) != 1 {
 			return fmt.Errorf("%s: %d inputs", how, len(tx.TxIn))
 		}
+		mu.Lock()
 		if err := verify(tx); err != nil {
+			mu.Unlock()
+
 			return fmt.Errorf("%s %v (input %v) is invalid: %v", how,
 				tx.TxHash(), tx.TxIn[0].PreviousOutPoint, err)
 		}
@@ -430,16 +437,22 @@ func c05Run(t *testing.T, c *c05Close, height uint32,
 		stats.published++
 		stats.byType[how]++
 		addOutputs(tx)
+		mu.Unlock()
 		w.confirm(tx)
 
 		return nil
+	}
+	addViolation := func(err error) {
+		mu.Lock()
+		violations = append(violations, err)
+		mu.Unlock()
 	}
 	arb.cfg.PublishTx = func(tx *wire.MsgTx, _ string) error {
 		if tx.TxHash() == commitHash {
 			return nil
 		}
 		if err := publish(tx.Copy(), "published_second_level"); err != nil {
-			violations = append(violations, err)
+			addViolation(err)
 		}
 
 		return nil
@@ -454,14 +467,14 @@ func c05Run(t *testing.T, c *c05Close, height uint32,
 				return
 			}
 			if r.SignedTimeoutTx.LockTime != r.Expiry {
-				violations = append(violations, fmt.Errorf(
+				addViolation(fmt.Errorf(
 					"incubated timeout tx lock time %d, expiry %d",
 					r.SignedTimeoutTx.LockTime, r.Expiry))
 			}
 			err := publish(r.SignedTimeoutTx.Copy(),
 				"nursery_timeout_tx")
 			if err != nil {
-				violations = append(violations, err)
+				addViolation(err)
 			}
 		})
 
@@ -469,6 +482,8 @@ func c05Run(t *testing.T, c *c05Close, height uint32,
 	}
 
 	w.sweepHook = func(r *ccSweepReq, spent bool) (*wire.MsgTx, error) {
+		mu.Lock()
+		defer mu.Unlock()
 		inp := r.inp
 		wt := inp.WitnessType().String()
 		op := inp.OutPoint()
@@ -598,15 +613,18 @@ func c05Run(t *testing.T, c *c05Close, height uint32,
 		w.mu.Unlock()
 		tx, err := w.sweepHook(r, spent)
 		if err != nil {
-			violations = append(violations, err)
+			addViolation(err)
 		}
 		if tx != nil {
 			w.confirm(tx)
 		}
 	}
 	w.mu.Lock()
-	violations = append(violations, w.hookErrs...)
+	hookErrs := append([]error(nil), w.hookErrs...)
 	w.mu.Unlock()
+	mu.Lock()
+	violations = append(violations, hookErrs...)
+	mu.Unlock()
 	if len(violations) > 0 {
 		return fail("%v", violations[0])
 	}
